@@ -196,15 +196,18 @@ def _record_parse(relfile, S):
         raise GenError("record %s: decode does not end in Ok((..))" % S)
     stmts, final = db[:k], db[k:]
     for stmt in [x.strip() for x in stmts.split(";") if x.strip()]:
-        m = re.match(r"^let \((\w+), offset\)(?:\s*:\s*\(([^;]+), usize\))? = (.+?)::decode\(bytes, offset\)\?$", stmt, re.S)
+        # `let (value, next_offset) = <T or Decode>::decode(bytes, some_offset)?;` - the offset identifiers are taken as written
+        # (usually all `offset`, shadowed each time), so a decoder that threads them wrongly yields a spec that says so
+        m = re.match(r"^let \((\w+), (\w+)\)(?:\s*:\s*\(([^;]+), usize\))? = (.+?)::decode\(bytes, (\w+)\)\?$", stmt, re.S)
         if not m:
             raise GenError("record %s: decode statement of unsupported shape: %r" % (S, stmt))
-        var, ann, via = m.group(1), m.group(2), m.group(3).strip()
+        var, offvar, ann, via, offexpr = m.group(1), m.group(2), m.group(3), m.group(4).strip(), m.group(5)
         ty = _norm_ty(ann) if ann else (None if via == "Decode" else _norm_ty(via))
-        dec_items.append(("skip" if var.startswith("_") else "bind", var, ty))
-    m = re.match(r"^Ok\(\(\s*%s\s*\{(.*)\}\s*,\s*offset\s*,?\s*\)\)$" % re.escape(S), final.strip(), re.S)
+        dec_items.append(("skip" if var.startswith("_") else "bind", var, ty, offvar, offexpr))
+    m = re.match(r"^Ok\(\(\s*%s\s*\{(.*)\}\s*,\s*(\w+)\s*,?\s*\)\)$" % re.escape(S), final.strip(), re.S)
     if not m:
         raise GenError("record %s: decode result of unsupported shape: %r" % (S, final[:80]))
+    final_off = m.group(2)
     lit = []  # (field, var|None, expr|None)
     for f in _split_top(m.group(1)):
         m2 = re.match(r"^(\w+)\s*:\s*(.+)$", f, re.S)
@@ -214,7 +217,7 @@ def _record_parse(relfile, S):
             lit.append((f, f, None))
         else:
             raise GenError("record %s: struct literal entry not understood: %r" % (S, f))
-    bound = {v for (k_, v, t) in dec_items if k_ == "bind"}
+    bound = {it[1] for it in dec_items if it[0] == "bind"}
     for (fld, var, expr) in lit:
         if fld not in ftype:
             raise GenError("record %s: literal sets unknown field %s" % (S, fld))
@@ -224,7 +227,7 @@ def _record_parse(relfile, S):
         raise GenError("record %s: literal does not set every field" % S)
     # types of inferred binds come from the field they initialise
     d2 = []
-    for (k_, var, ty) in dec_items:
+    for (k_, var, ty, offvar, offexpr) in dec_items:
         if k_ == "bind":
             fty = ftype.get(var)
             if fty is None:
@@ -232,8 +235,8 @@ def _record_parse(relfile, S):
             if ty is not None and ty != fty:
                 raise GenError("record %s: %s decoded as %s but the field is %s" % (S, var, ty, fty))
             ty = fty
-        d2.append((k_, var, ty))
-    return {"file": relfile, "name": S, "fields": fields, "enc": enc_items, "dec": d2, "lit": lit,
+        d2.append((k_, var, ty, offvar, offexpr))
+    return {"file": relfile, "name": S, "fields": fields, "enc": enc_items, "dec": d2, "lit": lit, "final_off": final_off,
             "enc_impl": r"^impl Encode for %s\b" % S, "dec_impl": r"^impl Decode for %s\b" % S}
 
 
@@ -352,14 +355,13 @@ def record_codecs(*specs):
         # ---- Decode
         dec_lines = []
         safe_lines = []
-        off = "offset"
         closers = 0
-        for i, (k, var, ty) in enumerate(r["dec"], 1):
+        for i, (k, var, ty, offvar, offexpr) in enumerate(r["dec"], 1):
             pat = var if k == "bind" else "_"
-            dec_lines.append("        match <%s>::dec(bytes, %s) { None => None, Some((%s, o%d)) =>" % (ty, off, pat, i))
-            safe_lines.append("        <%s>::dec_safe(bytes, %s) && match <%s>::dec(bytes, %s) { None => true, Some((_, o%d)) =>" % (ty, off, ty, off, i))
-            off = "o%d" % i
+            dec_lines.append("        match <%s>::dec(bytes, %s) { None => None, Some((%s, %s)) =>" % (ty, offexpr, pat, offvar))
+            safe_lines.append("        <%s>::dec_safe(bytes, %s) && match <%s>::dec(bytes, %s) { None => true, Some((_, %s)) =>" % (ty, offexpr, ty, offexpr, offvar))
             closers += 1
+        off = r["final_off"]
         litx = ", ".join((fld if var else "%s: %s()" % (fld, fixed_of[fld])) for (fld, var, expr) in r["lit"])
         dec_lines.append("        Some((%s { %s }, %s))" % (S, litx, off))
         dec_lines.append("        " + "}" * closers)
@@ -383,9 +385,9 @@ def record_codecs(*specs):
         for _, ty in xs:
             if ty not in tys:
                 tys.append(ty)
-        for _, _, ty in r["dec"]:
-            if ty not in tys:
-                tys.append(ty)
+        for it in r["dec"]:
+            if it[2] not in tys:
+                tys.append(it[2])
         L = ["// C14: %s decodes back to exactly what was encoded and consumes exactly the bytes that were produced" % S,
              "pub proof fn prop_record_%s()" % S,
              "    requires " + ", ".join("codec_law::<%s>()" % t for t in tys) + ",",
